@@ -12,7 +12,7 @@ MANIFEST = dict(
          "state graph is replayed on the real TxPool and the hook-emitted linearised events (results of AddTx/AddTxs/GetTxs/DelTxs) are "
          "validated by TLC against the order-insensitive set semantics; concurrent 8-goroutine runs of the real pool are validated the same way.",
     note="The hook runs under pool.RW after the state change (deferred before Unlock), sequence numbers are taken under the same lock. "
-         "The abstract semantics allows the documented box-dropped-with-its-sub-tx behaviour. The fork-switch clause is checked through a real engine (PoolFork.tla: every tree of 3 blocks - thorough: 4, sampled - carrying <=1 of 3 transactions each, every insertion order; a block may arrive with enough confirms or get them later (InsertConfirms), so the stable block moves, sibling forks are pruned and the head leaves a cut fork in the same call; block times and transaction expirations come from two or three epochs more than the 30 min transaction lifetime apart, so the replay guard is pruned by time and old transactions expire; expected pool after every call = the non-expired transactions the node was ever given (submitted before the run - all or none - or stored in a block) that are not on the head's chain. TLC checks that rule as an invariant of the modelled mechanism (guard cache, GetTxsByBranch, DelOldBlocks) and, as a negative control, finds it violated when the guard is pruned before the fork switch is handled. Quick replays a seeded sample of the behaviours on a real node)",
+         "The abstract semantics allows the documented box-dropped-with-its-sub-tx behaviour. The fork-switch clause is checked through a real engine (PoolFork.tla: every tree of 3 blocks - thorough: 4, sampled - carrying <=1 of 3 transactions each, every insertion order; a block may arrive with enough confirms or get them later (InsertConfirms), so the stable block moves, sibling forks are pruned and the head leaves a cut fork in the same call; block times and transaction expirations come from two or three epochs more than the 30 min transaction lifetime apart, so the replay guard is pruned by time and old transactions expire; judged after every call by two bounds: UPPER - the pool holds no duplicates, only non-expired transactions the node was ever given (submitted before the run - all or none - or stored in a block) and none that are on the head's chain; LOWER - every transaction that was pending before the call or lies on the abandoned fork (old head's branch back to the common ancestor with the new head) is pending unless expired or on the new head's chain. A transaction known only from a side block that was never on the head's branch and never pending is not demanded: saveNewBlock makes it pending when the side block leaves the head unchanged and not when it makes the node switch to another stored leaf - an inconsistency, not a violation of the clause. TLC checks the two bounds (invariant PoolUpper, step property PoolLower) on the modelled mechanism (guard cache, GetTxsByBranch, DelOldBlocks) and, as a negative control, finds them violated when the guard is pruned before the fork switch is handled. Quick replays a seeded sample of the behaviours on a real node. Indirect switches - the new head is a stored leaf, not the delivered block: a higher fork that was at the wrong distance from the stable block becomes eligible when a confirm packet moves the stable block, and the next block on a third fork triggers the switch - need 5 blocks: a family of 5-block trees (one trunk block, forks on it) is model-checked in full, the behaviours that contain such a step are selected by a history variable of the model and ALL of them are replayed on a real node in both tiers; the run is broken unless the real node shows head' not in {head, delivered block} often enough)",
     technique="TLA+ model checking (TxPool.tla) + replay of the full TLC state graph on the real pool + TLC trace validation (TraceTxPool.tla over TxPoolAbs.tla)")
 
 
@@ -52,25 +52,133 @@ def run(ctx):
         else:
             ctx.validate("TraceTxPool", "TraceTxPool.cfg", [conc2], what="8-goroutine runs (-race build)", timeout=1800)
     # fork-switch clause through the real engine: PoolFork.tla (fork switches x stable changes x block-time epochs)
-    pdot = ctx.path("poolfork.dot")
-    ctx.tlc_exhaustive("MCPoolFork", "MCPoolFork_n3.cfg", timeout=900, dump=pdot)
-    # negative control: a guard pruned BEFORE the fork switch is handled loses the pool update in the model
-    pneg = ctx.tlc("MCPoolFork", "MCPoolFork_n3_neg.cfg", timeout=600, expect_ok=False)
-    ctx.extra["negative_control_poolfork_prune_first_violates"] = pneg["inv"]
-    if pneg["inv"] != "PoolIsOffChain":
-        raise __import__("vlib").Broken("negative control: pruning the guard before the fork switch should violate PoolIsOffChain in the model")
-    pfiles, psumm = ctx.replay("poolfork", graph=pdot, shards=16, maxlen=10, limit=600 if ctx.quick() else 0, chunk=300, timeout=3000)
-    # 4 blocks, two and three epochs: invariants on every state (thorough), random behaviours of the model on the real node (both tiers)
-    if not ctx.quick():
-        ctx.tlc_exhaustive("MCPoolFork", "MCPoolFork_n4.cfg", timeout=1800)
-        ctx.tlc_exhaustive("MCPoolFork", "MCPoolFork_n3e3.cfg", timeout=900)
-        ctx.tlc_simulate("MCPoolFork", "MCPoolFork_n4.cfg", num=8000, depth=10, prefix="pf4e2", timeout=600)
-    ctx.tlc_simulate("MCPoolFork", "MCPoolFork_n4e3.cfg", num=300 if ctx.quick() else 8000, depth=10, prefix="pf4e3", timeout=600)
-    pfiles4, psumm4 = ctx.replay("poolfork", sim=ctx.path("sim", "pf4e") + "*", name="poolfork4", shards=16, chunk=300, timeout=3000)
-    ctx.validate("TracePoolFork", "TracePoolFork.cfg", pfiles + pfiles4, what="engine fork switches x stable changes x block-time epochs", timeout=1800)
-    ctx.extra["poolfork"] = dict(behaviours_total=psumm["behaviours_total"], replayed=psumm["behaviours"], graph_edges=psumm["graph_edges"],
-                                 replayed_4_blocks=psumm4["behaviours"], actions=dict(psumm["action_counts"]), actions_4_blocks=dict(psumm4["action_counts"]))
+    poolfork(ctx)
     ctx.assumptions += ["transactions are identified by hash; the universe is 3 plain txs and 2 overlapping boxes (model) / 10 txs and 3 boxes (concurrent driver)",
                         "the order in which GetTxs hands out transactions is not constrained",
-                        "fork-switch clause: 3 deputies (a block is stable with its miner and one more signer), the node under test is an observer; block times from two (3 blocks) or three (4 blocks) epochs 50 min apart; before the run all transactions of the universe were submitted to the node, or none; "
+                        "fork-switch clause: 3 deputies (a block is stable with its miner and one more signer), the node under test is an observer; block times from two (3 blocks) or three (4 blocks) epochs 50 min apart, one epoch for the 5-block family of indirect switches (quick: 2 transactions, each in at most one block, one numbering per tree shape; thorough: 3 transactions, every numbering); before the run all transactions of the universe were submitted to the node, or none; "
                         "a transaction expires 1000 s after the start of its epoch; the pool is asked at the latest block time the node has accepted"]
+
+
+def focus_dot(src, dst, marker):
+    """Selection of behaviours (never a verdict): keep the part of a TLC state graph that lies on behaviours reaching a
+    state whose label matches `marker` (a history variable of the model), i.e. the marked states and every state that can
+    reach one.  Tours over the result cover every way to the marked steps and everything that follows them."""
+    import re
+    node = re.compile(r"^(-?\d+) \[label=")
+    edge = re.compile(r"^(-?\d+) -> (-?\d+) ")
+    mark = re.compile(marker)
+    marked, preds, nodes = set(), {}, set()
+    with open(src) as fh:
+        for ln in fh:
+            m = edge.match(ln)
+            if m:
+                preds.setdefault(m.group(2), []).append(m.group(1))
+                continue
+            m = node.match(ln)
+            if m:
+                nodes.add(m.group(1))
+                if mark.search(ln):
+                    marked.add(m.group(1))
+    keep, todo = set(marked), list(marked)
+    while todo:
+        for q in preds.get(todo.pop(), ()):
+            if q not in keep:
+                keep.add(q)
+                todo.append(q)
+    kept_edges = 0
+    with open(src) as fh, open(dst, "w") as out:
+        for ln in fh:
+            m = edge.match(ln)
+            if m:
+                if m.group(1) in keep and m.group(2) in keep:
+                    out.write(ln)
+                    kept_edges += 1
+                continue
+            m = node.match(ln)
+            if m and m.group(1) in keep:
+                out.write(ln)
+    return dict(states=len(nodes), marked_states=len(marked), focused_states=len(keep), focused_edges=kept_edges)
+
+
+def indirect_steps(files):
+    """Non-vacuity counter (never a verdict): accepted InsertBlock steps of the REAL node after which the head is neither
+    the old head nor the delivered block."""
+    n = behs = 0
+    for f in files:
+        head, hit = 0, False
+        with open(f) as fh:
+            for ln in fh:
+                if not ln.strip():
+                    continue
+                e = json.loads(ln)
+                if e.get("ev") == "reset":
+                    behs += hit
+                    head, hit = 0, False
+                    continue
+                if e.get("ev") == "InsertBlock" and e.get("ok") and "panic" not in e and e.get("head") not in (head, e["a"][0]):
+                    n += 1
+                    hit = True
+                if "head" in e:
+                    head = e["head"]
+        behs += hit
+    return n, behs
+
+
+def poolfork(ctx):
+    import concurrent.futures, time
+    Broken = __import__("vlib").Broken
+    quick = ctx.quick()
+    pdot, idot = ctx.path("poolfork.dot"), ctx.path("poolfork_ind.dot")
+    icfg = "MCPoolFork_ind.cfg" if quick else "MCPoolFork_ind3.cfg"
+
+    # negative control: a guard pruned BEFORE the fork switch is handled loses the pool update in the model
+    def negs():
+        return ctx.tlc("MCPoolFork", "MCPoolFork_n3_neg.cfg", timeout=600, expect_ok=False)
+
+    # the TLC runs are independent: design invariants on 3 blocks (graph), on the 5-block family of indirect switches
+    # (graph), random behaviours of 4 blocks / three epochs
+    jobs = [lambda: ctx.tlc_exhaustive("MCPoolFork", "MCPoolFork_n3.cfg", timeout=900, dump=pdot, count=False),
+            lambda: ctx.tlc_exhaustive("MCPoolFork", icfg, timeout=1800, dump=idot, count=False, workers=4 if quick else None),
+            negs,
+            lambda: ctx.tlc_simulate("MCPoolFork", "MCPoolFork_n4e3.cfg", num=300 if quick else 8000, depth=10, prefix="pf4e3", timeout=600)]
+    with concurrent.futures.ThreadPoolExecutor(len(jobs)) as ex:
+        futs = []
+        for j in jobs:
+            futs.append(ex.submit(j))
+            time.sleep(0.3)        # scratch directories of the TLC wrapper are named by the millisecond
+        res = [f.result() for f in futs]
+    for r in res[:2]:
+        ctx.cov["states"] += r["distinct"]
+        ctx.cov["transitions"] += r["generated"]
+    pneg = res[2]
+    ctx.extra["negative_control_poolfork_prune_first_violates"] = pneg["inv"]
+    if pneg["inv"] not in ("PoolUpper", "PoolLower"):
+        raise Broken("negative control: pruning the guard before the fork switch should violate a bound of the clause (PoolUpper / PoolLower) in the model")
+    pfiles, psumm = ctx.replay("poolfork", graph=pdot, shards=16, maxlen=10, limit=600 if quick else 0, chunk=300, timeout=3000)
+    # 4 blocks, two and three epochs: invariants on every state (thorough), random behaviours of the model on the real node (both tiers)
+    if not quick:
+        ctx.tlc_exhaustive("MCPoolFork", "MCPoolFork_n4.cfg", timeout=1800)
+        ctx.tlc_exhaustive("MCPoolFork", "MCPoolFork_n3e3.cfg", timeout=900)
+        ctx.tlc_exhaustive("MCPoolFork", "MCPoolFork_ind_any.cfg", timeout=1800)
+        ctx.tlc_simulate("MCPoolFork", "MCPoolFork_n4.cfg", num=8000, depth=10, prefix="pf4e2", timeout=600)
+    pfiles4, psumm4 = ctx.replay("poolfork", sim=ctx.path("sim", "pf4e") + "*", name="poolfork4", shards=16, chunk=300, timeout=3000)
+    # indirect switches (the new head is not the delivered block): the behaviours of the 5-block family that contain such a
+    # step in the model (history variable ind), all of them, in both tiers, on a real node
+    foc = ctx.path("poolfork_ind_focus.dot")
+    finfo = focus_dot(idot, foc, r"/\\\\ ind = [1-9]")
+    if not finfo["marked_states"]:
+        raise Broken("the model of %s reaches no indirect fork switch (ind > 0)" % icfg)
+    ifiles, isumm = ctx.replay("poolfork", graph=foc, name="poolforkind", shards=16, maxlen=12, limit=0, chunk=300, timeout=3000)
+    nind, bind = indirect_steps(ifiles)
+    need = max(100, isumm["behaviours"] // 4)
+    ctx.log("indirect switches: %d steps in %d of %d replayed behaviours on the real node (model: %d marked states, %d focused edges)" % (
+        nind, bind, isumm["behaviours"], finfo["marked_states"], finfo["focused_edges"]))
+    if nind < need:
+        raise Broken("only %d steps with head' not in {head, delivered block} were reached on the real node (need %d): "
+                     "the model's head rule and the engine's disagree, or the selection is broken" % (nind, need))
+    ctx.validate("TracePoolFork", "TracePoolFork.cfg", pfiles + pfiles4 + ifiles, what="engine fork switches x stable changes x block-time epochs, indirect switches", timeout=1800)
+    ctx.extra["poolfork"] = dict(behaviours_total=psumm["behaviours_total"], replayed=psumm["behaviours"], graph_edges=psumm["graph_edges"],
+                                 replayed_4_blocks=psumm4["behaviours"], actions=dict(psumm["action_counts"]), actions_4_blocks=dict(psumm4["action_counts"]),
+                                 indirect=dict(cfg=icfg, focus=finfo, behaviours_total=isumm["behaviours_total"], replayed=isumm["behaviours"],
+                                               real_steps_head_not_delivered_block=nind, real_behaviours_with_such_a_step=bind,
+                                               actions=dict(isumm["action_counts"])))
